@@ -350,6 +350,7 @@ type Out struct {
 	Nontriv  int       `json:"nontrivial,omitempty"`  // queries whose answer is a proper non-empty subset of the rows
 	BruteDis int       `json:"brute_disagree,omitempty"` // twin (full scan) answer differs from the harness's brute force
 	Retries  int       `json:"retries,omitempty"`        // repeated comparisons (a transient disagreement)
+	BruteEx  []string  `json:"brute_examples,omitempty"`
 	Failures []Failure `json:"failures,omitempty"`
 }
 
@@ -587,6 +588,9 @@ func main() {
 			}
 			if nb != len(ic) {
 				out.BruteDis++
+				if len(out.BruteEx) < 4 {
+					out.BruteEx = append(out.BruteEx, fmt.Sprintf("%s -> %d rows, brute force %d", qc, len(ic), nb))
+				}
 			}
 			if len(ic) > 0 && len(ic) < nrows {
 				out.Nontriv++
